@@ -379,6 +379,28 @@ pub fn for_each_input(cfg: &crate::RunCfg, label: &str, plan: &RxPlan, f: &mut d
             p
         });
     }
+    // (a') re-framed copies: what a driver that consumes or re-inserts the address byte could hand
+    // over - first byte dropped, an address byte prepended, last byte dropped / doubled - addressed
+    // to the fixed addresses some receiving contexts have (0x23, 0x7F) and to the packet's own
+    for b in &bases {
+        for addr in [0x23u8, 0x7F, b[0] >> 1] {
+            let mut t = b.clone();
+            t[0] = addr << 1;
+            fix_pec(&mut t);
+            item!(t[1..].to_vec());
+            item!({
+                let mut p = vec![addr << 1];
+                p.extend_from_slice(&t);
+                p
+            });
+            item!(t[..t.len() - 1].to_vec());
+            item!({
+                let mut p = t.clone();
+                p.push(*t.last().unwrap());
+                p
+            });
+        }
+    }
     // (c) field sweeps
     if plan.field_sweep {
         for b in &bases {
